@@ -311,6 +311,7 @@ func runWaitCase(c *Case) string {
 // barrier, then each spins for a few iterations (every pair of a small grid) before emitting /
 // returning. Collect must have waited for the terminal callback in every trial: all trials give the
 // result the model gives for the script; the first deviating trial is reported as `unstable=`.
+//
 //go:noinline
 func collectSpin(n int) int {
 	x := 0
